@@ -89,6 +89,9 @@ def flipper(rng, lo=0, hi=None):
         b = bytearray(b)
         h = len(b) if hi is None else min(hi, len(b))
         i = rng.randrange(lo, h)
+        if rng.random() < 0.4 and h - lo >= 4:
+            # the ends of a datum: tags, lengths, prefixes, parity bits
+            i = rng.choice([lo, lo, lo + 1, h - 1, h - 2])
         b[i] ^= 1 << rng.randrange(8)
         return bytes(b)
     return f
